@@ -750,17 +750,27 @@ impl<S: BitmapSlice + Send + Sync> FileSystem for PassthroughFs<S> {
             // File exists, and args.flags doesn't contain O_EXCL. Now let's open it with
             // open_inode().
             None => {
-                // Cap restored when _killpriv is dropped
-                let _killpriv = if self.killpriv_v2.load(Ordering::Relaxed)
-                    && (args.fuse_flags & FOPEN_IN_KILL_SUIDGID != 0)
-                {
-                    self::drop_cap_fsetid()?
-                } else {
-                    None
-                };
+                let reopen = || -> io::Result<File> {
+                    // Cap restored when _killpriv is dropped
+                    let _killpriv = if self.killpriv_v2.load(Ordering::Relaxed)
+                        && (args.fuse_flags & FOPEN_IN_KILL_SUIDGID != 0)
+                    {
+                        self::drop_cap_fsetid()?
+                    } else {
+                        None
+                    };
 
-                let (_uid, _gid) = set_creds(ctx.uid, ctx.gid)?;
-                self.open_inode(entry.inode, args.flags as i32)?
+                    let (_uid, _gid) = set_creds(ctx.uid, ctx.gid)?;
+                    self.open_inode(entry.inode, args.flags as i32)
+                };
+                match reopen() {
+                    Ok(f) => f,
+                    Err(e) => {
+                        // The client never sees this entry: give back the reference taken by do_lookup().
+                        self.forget(ctx, entry.inode, 1);
+                        return Err(e);
+                    }
+                }
             }
         };
 
